@@ -37,18 +37,23 @@ def well_formed_float(x):
 def check_score(ver):
     def fn(inp):
         v = inp["vector"]
+        from .runner import in_thread
         exp = as_floats(expected_scores(ver, v))
-        got = lib_class(ver)(v).scores()
+        C = lib_class(ver)
         fails = []
-        if not isinstance(got, tuple) or len(got) != len(exp):
-            return [failure(list(exp), repr(got), note="scores() shape")]
         slots = ("base", "temporal", "environmental")
-        for i, (g, e) in enumerate(zip(got, exp)):
-            if e is None:
-                if g is not None:
-                    fails.append(failure(None, g, note="%s score must be None (undefined group)" % slots[i]))
-            elif g is None or g != e or not well_formed_float(g):
-                fails.append(failure(e, repr(g), note="%s score" % slots[i]))
+        # the score is evaluated in the calling thread and in a fresh thread (fresh thread-local state)
+        for where, got in (("calling thread", C(v).scores()), ("fresh thread", in_thread(lambda: C(v).scores()))):
+            if not isinstance(got, tuple) or len(got) != len(exp):
+                return [failure(list(exp), repr(got), note="scores() shape")]
+            for i, (g, e) in enumerate(zip(got, exp)):
+                if e is None:
+                    if g is not None:
+                        fails.append(failure(None, g, note="%s score must be None (undefined group)" % slots[i]))
+                elif g is None or g != e or not well_formed_float(g):
+                    fails.append(failure(e, repr(g), note="%s score, computed in the %s" % (slots[i], where)))
+            if fails:
+                break
         return fails
     return fn
 
